@@ -90,7 +90,14 @@ fn gen_pair(rng: &mut Rng, index: u64) -> (Geometry<f64>, Geometry<f64>) {
     match rng.below(10) {
         0 | 1 => {
             // B inside a hole of A (A areal): frame with hole; the hole may touch B's box
-            let b = gen_kind(rng, k, kb, 1);
+            let mut b = gen_kind(rng, k, kb, 1);
+            if rng.chance(1, 3) {
+                // B is itself a polygon with a hole (both operands holed, one inside the other's hole)
+                let (x0, y0) = (rng.range(0, k - 3), rng.range(0, k - 3));
+                let (x1, y1) = (rng.range(x0 + 3, k), rng.range(y0 + 3, k));
+                let inner = rect_ring(x0 + 1, y0 + 1, x1 - 1, y1 - 1);
+                b = wrap_poly(rng, Polygon::new(rect_ring(x0, y0, x1, y1), vec![inner]), (-30, -30));
+            }
             let m = rng.range(0, 2); // gap between the hole and the k-grid box
             let w = rng.range(1, 2);
             let hole = rect_ring(-m, -m, k + m, k + m);
